@@ -419,7 +419,8 @@ struct XDlist : mc::Model
         for (auto *l : L)
             if (l)
             {
-                l->list.next = l->list.prev = &l->list;
+                igris::dlist_node *hn = l->end().current; // the list's own node, through the public iterator
+                hn->next = hn->prev = hn;
                 delete l;
             }
     }
@@ -434,7 +435,8 @@ struct XDlist : mc::Model
         Op &p = ops[o];
         return mc::fmt("%s[list L%d, item i%d, anchor/other %s]", nm[p.kind], p.l, p.x, el(p.a).c_str());
     }
-    igris::dlist_node *node(int e) { return e < H ? &L[e]->list : &I[e - H]->lnk; }
+    // the head node of a list is what its public end() iterator points at
+    igris::dlist_node *node(int e) { return e < H ? L[e]->end().current : &I[e - H]->lnk; }
     int idx(igris::dlist_node *p)
     {
         for (int e = 0; e < E; e++)
@@ -679,8 +681,8 @@ struct XDlist : mc::Model
             if (rev != wrev || back != wrev)
                 mc::violation(mc::fmt("C01.cxx_dlist.%s.backward", sigk), "%s backward %s want %s", el(l).c_str(), vstr(rev).c_str(), vstr(wrev).c_str());
             size_t sz = want.size();
-            bool qok = q.size() == sz && q.empty() == (sz == 0) && q.is_correct() && q.list.circular_size() == sz + 1 &&
-                       q.list.reverse_circular_size() == sz + 1;
+            bool qok = q.size() == sz && q.empty() == (sz == 0) && q.is_correct() && q.end().current->circular_size() == sz + 1 &&
+                       q.end().current->reverse_circular_size() == sz + 1;
             if (sz)
                 qok = qok && q.front().id == want.front() - H && q.back().id == want.back() - H && q.first().id == want.front() - H &&
                       q.first_node() == node(want.front()) && q.last_node() == node(want.back());
@@ -764,7 +766,8 @@ struct SlistModel : mc::Model
             ops.push_back({XX_MOVE_FRONT, 2, x, 0});
         }
     }
-    struct slist_head *head(int l) { return l < 2 ? &heads[l] : &wrap.head; }
+    // the wrapper's own head is what its public end() iterator points at
+    struct slist_head *head(int l) { return l < 2 ? &heads[l] : wrap.end().current; }
     int nops() override { return (int)ops.size(); }
     string opname(int o) override
     {
